@@ -852,6 +852,11 @@ func (c simConnector) Make(ctx context.Context, consumerName string) (workflow.C
 		return nil, c.s.dispErr(d)
 	}
 	s.openReceivers.Add(1)
+	if p != nil {
+		// what the process really reads (as for stream receivers): a consumer made under another name than its role then shows up
+		// as different behaviour — shards sharing one position lose each other's events — not as a simulation that cannot go on
+		p.recv = &simReceiver{s: s, p: p, topic: fmt.Sprintf("conn-%d", c.cid), name: consumerName}
+	}
 	return &simConnConsumer{s: s, p: p, topic: fmt.Sprintf("conn-%d", c.cid), name: consumerName}, nil
 }
 
